@@ -75,6 +75,13 @@ def cases(tier, seed, i, n):
                             yield dict(pre=pre, sc=sc, end=end, at=at, args=APP_CLOSE_ARGS[k % len(APP_CLOSE_ARGS)],
                                        sends=sends, ct=(None, 2.0, 0)[k % 3], seg=('coalesced', 'perframe', 'bytewise')[k % 3],
                                        shut=('notconn' if k % 5 == 0 else None))
+                            if len(pre) <= 1 and at not in ('never', 'closed', 'closing') and sends == 'none' and sc.startswith('reply'):
+                                # the application takes its time in the Closed handler: longer than what is left of
+                                # the close timeout.  The handshake IS complete; Closed is followed by a graceful end.
+                                yield dict(pre=pre, sc=sc, end=end, at=at, args=APP_CLOSE_ARGS[k % len(APP_CLOSE_ARGS)],
+                                           sends=sends, ct=2.0, seg='coalesced', slow=['closed', 5.0])
+                                yield dict(pre=pre, sc=sc, end=end, at=at, args=APP_CLOSE_ARGS[k % len(APP_CLOSE_ARGS)],
+                                           sends=sends, ct=2.0, seg='coalesced', slow=['closed', 5.0], pt=3.0)
                             if len(pre) <= 1 and at not in ('never', 'closed') and sends in ('every', 'text'):
                                 # the write of the application's Close frame itself fails (once)
                                 yield dict(pre=pre, sc=sc, end=end, at=at, args=APP_CLOSE_ARGS[k % len(APP_CLOSE_ARGS)],
@@ -126,6 +133,9 @@ def run_case(case, acc):
         table[case['at']] = table[case['at']] + [['close'] + list(case['args'])]
         if case['sends'] == 'every':
             table[case['at']] = table[case['at']] + [['send_text', 'after-close'], ['send_ping', b'ac']]
+    if case.get('slow'):
+        table.setdefault(case['slow'][0], [])
+        table[case['slow'][0]] = [['sleep', case['slow'][1]]] + table[case['slow'][0]]
     seg = case['seg']
     cuts = None if seg == 'coalesced' else ('all' if seg == 'bytewise' else None)
     if seg == 'perframe':
@@ -155,7 +165,12 @@ def run_case(case, acc):
     w = H.World(H.hs_server(steps), cuts=cuts, horizon=8.0 if ct else 0.0, faults=faults)
     if case.get('cfault'):
         w.frame_faults = {8: case['cfault']}
-    run = H.drive(w, ws=ws0, connect_kwargs=dict(ping_rate=0, poll=1.0, close_timeout=ct), policy=H.TablePolicy(table))
+    ckw = dict(ping_rate=0, poll=1.0, close_timeout=ct)
+    if case.get('pt'):
+        ckw.update(ping_rate=1.0, ping_timeout=case['pt'])
+    run = H.drive(w, ws=ws0, connect_kwargs=ckw, policy=H.TablePolicy(table))
+    if case.get('slow'):
+        acc.count2('oracle', 'slow_handler_runs')
     if case.get('cfault'):
         return judge_close_write_fault(case, run, w, acc)
     if case.get('shut'):
